@@ -1544,7 +1544,7 @@ class InputGatherer(
     def map_function_definition(self, expr: FunctionDefinition
                                 ) -> frozenset[InputArgumentBase]:
         # get rid of placeholders local to the function.
-        new_mapper = InputGatherer()
+        new_mapper = self.clone_for_callee(expr)
         all_callee_inputs = new_mapper.combine(*[new_mapper(ret)
                                                  for ret in expr.returns.values()])
         result: set[InputArgumentBase] = set()
@@ -1607,7 +1607,7 @@ class ListOfInputsGatherer(
     def map_function_definition(self, expr: FunctionDefinition
                                 ) -> list[InputArgumentBase]:
         # get rid of placeholders local to the function.
-        new_mapper = ListOfInputsGatherer()
+        new_mapper = self.clone_for_callee(expr)
         all_callee_inputs = new_mapper.combine(*[new_mapper(ret)
                                                  for ret in expr.returns.values()])
         result: list[InputArgumentBase] = []
